@@ -400,3 +400,76 @@ class _getitem_slice_u:
     def _(a, old, result):
         return And(same(Fq(old.self), Fq(a.self)), same(Eq(old.self), Eq(a.self)), same(elems(attr(old.self, "_missed")), elems(attr(a.self, "_missed"))),
                    same(attr(attr(old.self, "_binnings")[0], "_bins"), attr(attr(a.self, "_binnings")[0], "_bins")), result is not a.self)
+
+
+# ---------------------------------------------------------------------------------------------- projection of a 2-D histogram (C09, C12)
+
+HNDK = "physt.histogram_nd:HistogramND"
+
+
+def hist2d_t(b, name, n0, n1, dtype="int64"):
+    bs = [static_binning_t(b, f"B{i}", n) for i, n in enumerate((n0, n1))]
+    freq = b.tarray(name + ".freq", (n0, n1), dtype)
+    err2 = b.tarray(name + ".err2", (n0, n1), dtype)
+    missed = b.array(name + ".missed", (1,), dtype)
+    i, j = None, None
+    b.assume(forall(0, n0, lambda i: forall(0, n1, lambda j: And(freq[i, j] >= 0, err2[i, j] >= 0))))
+    nonneg(b, missed)
+    return b.obj(H2, _binnings=bs, _frequencies=freq, _errors2=err2, _missed=missed, _dtype=b.dtype(dtype),
+                 _meta_data={"name": "nm", "axis_names": ("xx", "yy")}, keep_missed=True)
+
+
+def line_sum(F, k, axis_kept, n_other):
+    """sum of row k (axis_kept == 0) or column k (axis_kept == 1) of the 2-D array F over the other axis"""
+    if isinstance(F, TArr_):
+        import z3
+        from pyvc.tarr import sum_fn, kind_of_dtype
+        from pyvc.values import term_of, raw, mk, CURRENT
+        j = z3.Int(CURRENT["interp"].ctx.fresh_name("j"))
+        kt = term_of(raw(k), "int")
+        line = z3.Lambda([j], z3.Select(F.term, kt, j) if axis_kept == 0 else z3.Select(F.term, j, kt))
+        kd = kind_of_dtype(F.dtype)
+        return mk(sum_fn(kd)(line, z3.IntVal(0), term_of(raw(n_other), "int")), kd)
+    import numpy as _np
+    A = _np.asarray(F)
+    return total(A[k, :] if axis_kept == 0 else A[:, k])
+
+
+from pyvc.values import TArr as TArr_
+
+
+@contract(HNDK + ".projection", props=["C09", "C12"], name=HNDK + ".projection[2-D, any shape]")
+class _projection_u:
+    """the marginal of a 2-D histogram of ANY shape onto one axis (by index or by name)"""
+    probe = "quantifier-free"
+
+    def configs():
+        return [{"axis": 0}, {"axis": 1}, {"axis": "yy"}, {"axis": "xx"}]
+
+    def inputs(b):
+        n0, n1 = b.int("n0"), b.int("n1")
+        b.assume(And(n0 >= 1, n1 >= 1))
+        return dict(self=hist2d_t(b, "h", n0, n1), axis=b.cfg.axis)
+
+    def invoke(I, fn, a, cfg):
+        if I is not None:
+            return I.call(fn, [a.self, a.axis], {})
+        return fn(a.self, a.axis)
+
+    @ensures("contents_and_errors_are_summed_over_the_dropped_axis_bins_and_name_of_the_kept_axis")
+    def _(a, old, result):
+        kept = {"xx": 0, "yy": 1}.get(old.axis, old.axis)
+        F0, E0 = attr(old.self, "_frequencies"), attr(old.self, "_errors2")
+        n_kept, n_other = shape_of(F0)[kept], shape_of(F0)[1 - kept]
+        f, e = attr(result, "_frequencies"), attr(result, "_errors2")
+        b0, b1 = attr(attr(old.self, "_binnings")[kept], "_bins"), attr(attr(result, "_binnings")[0], "_bins")
+        return And(typename(result) == "Histogram1D", shape_of(f)[0] == n_kept, shape_of(e)[0] == n_kept, shape_of(b1)[0] == n_kept,
+                   forall(0, n_kept, lambda k: And(f[k] == line_sum(F0, k, kept, n_other), e[k] == line_sum(E0, k, kept, n_other),
+                                                   b1[k, 0] == b0[k, 0], b1[k, 1] == b0[k, 1])),
+                   tuple(attr(result, "_meta_data")["axis_names"]) == (("xx", "yy")[kept],), attr(result, "_meta_data").get("name") == "nm")
+
+    @ensures("the_parent_is_untouched_and_shares_no_binning_object_with_the_projection")
+    def _(a, old, result):
+        return And(same(attr(old.self, "_frequencies"), attr(a.self, "_frequencies")), same(attr(old.self, "_errors2"), attr(a.self, "_errors2")),
+                   *[attr(result, "_binnings")[0] is not bn for bn in attr(a.self, "_binnings")],
+                   *[same(attr(x, "_bins"), attr(y, "_bins")) for x, y in zip(attr(old.self, "_binnings"), attr(a.self, "_binnings"))])
